@@ -60,6 +60,8 @@ class Ctx:
         self._shrunk_per_kind = collections.Counter()
         self.dropped_violations = 0
         self.t0 = time.time()
+        self._stall = float(os.environ.get('HPLMON_STALL') or 0)
+        self._armed = -1e9
 
     # -- budgets ------------------------------------------------------------------------
     def share(self, total):
@@ -78,6 +80,7 @@ class Ctx:
     def begin_case(self, features=()):
         """Assign the case to a stratum: 'full' iff the syntactic part of some known: line could
         match this input; otherwise 'kf_free', where no suppression is ever applied."""
+        self._progress()
         fs = set(features)
         st = 'kf_free'
         for k in self.known:
@@ -90,7 +93,18 @@ class Ctx:
         self.strata[st]['cases'] += 1
         return st
 
+    def _progress(self):
+        now = time.monotonic()
+        if self._stall > 0 and now - self._armed > 5:
+            # stall watchdog (C-level timer, needs no GIL): no case or evaluation for _stall seconds => stack dump
+            # and exit; the check then reports INCONCLUSIVE with the stack instead of waiting for the tier's
+            # wall-clock limit (hpl folds astronomically large integer powers without ever returning)
+            import faulthandler
+            faulthandler.dump_traceback_later(self._stall, exit=True)
+            self._armed = now
+
     def evaluation(self, sig=None, nontrivial=False, n=1):
+        self._progress()
         self.evaluations += n
         self.strata[self.stratum]['evaluations'] += n
         if nontrivial and sig is not None:
@@ -210,6 +224,7 @@ def worker_main(pid, tier, seed, shard, nshards, out):
     except BaseException:
         status = 'crashed'
         err = traceback.format_exc()
+    faulthandler.cancel_dump_traceback_later()
     res = ctx.result()
     res['status'] = status
     res['error'] = err
@@ -243,6 +258,7 @@ def check_main(pid, tier, seed, check_path):
             e['PYTHONDONTWRITEBYTECODE'] = '1'
             e['HPLMON_SCRATCH'] = scratch
             e['HPLMON_WATCHDOG'] = str(max(5, timeout * 0.9))
+            e.setdefault('HPLMON_STALL', str(min(900, timeout * 0.5)))
             cmd = [
                 sys.executable, '-X', f'pycache_prefix={scratch}/pyc', check_path, pid,
                 '--worker', '--tier', tier, '--seed', str(seed),
